@@ -104,6 +104,16 @@ theorem C18_hash_path (H : Bytes → Bytes) (bsOf : Nat → Nat) (hbs : ∀ i, 0
         chainOK H bsOf master' L' idx b :=
   absWrite_chain H bsOf hbs hH hnz idx offset data L master L' master' hlen hin hgeo h
 
+/-- and at every level at or above the written one, a block whose chain was intact keeps an intact chain: a write never
+    invalidates anything that verified before, at any level of the tree -/
+theorem C18_hash_path_all_levels (H : Bytes → Bytes) (bsOf : Nat → Nat) (hbs : ∀ i, 0 < bsOf i) (hH : ∀ x, (H x).length = 0x20)
+    (hnz : ¬ ZeroHash H) (idx offset : Nat) (data : Bytes) (L : Nat → Bytes) (master : List Bytes) (L' : Nat → Bytes)
+    (master' : List Bytes) (hlen : 0 < data.length) (hin : offset + data.length ≤ (L idx).length)
+    (hgeo : ∀ i, i < idx → nblocks (L (i + 1)).length (bsOf (i + 1)) * 0x20 ≤ (L i).length)
+    (h : absWrite H bsOf idx offset data (L, master) = .ok (L', master')) (lvl : Nat) (hl : lvl ≤ idx) (b : Nat)
+    (hb : b * bsOf lvl < (L lvl).length) (hc : chainOK H bsOf master L lvl b) : chainOK H bsOf master' L' lvl b :=
+  absWrite_chain_all H bsOf hbs hH hnz idx offset data L master L' master' hlen hin hgeo h lvl hl b hb hc
+
 /-- hence a fully verifying tree stays fully verifying and its verified level-4 view becomes the old view with the data laid
     over it -/
 theorem C18_view (H : Bytes → Bytes) (bsOf : Nat → Nat) (hbs : ∀ i, 0 < bsOf i) (hH : ∀ x, (H x).length = 0x20)
